@@ -21,10 +21,14 @@ reg("C16",
     level_note="Trusted: the hand-written recognisers (40 lines, from the Conjure spec grammar); serde_json/serde_smile for rendering the probe documents. Strings longer than the bound and characters outside the alphabet are not covered.")
 
 reg("C15",
-    packages=["sweeps"], bin="sweeps", level="exploration", engine="E4 sweeps",
+    packages=["sweeps", "httpdirect"], level="exploration", engine="E4 sweeps + E3a httpdirect",
+    parts=[
+        {"packages": ["sweeps"], "bin": "sweeps"},
+        {"packages": ["httpdirect"], "bin": "httpdirect"},
+    ],
     technique="bounded exhaustive enumeration of integer neighbourhoods through every construction/parsing/deserialization route of the real code, judged by the range predicate",
     design_ref="DESIGN.md §3 C15",
-    explanation="every integer within a radius of every boundary centre (0, ±(2^53-1), ±2^k, ±10^k, top of u128) is pushed through ~50 routes (new, TryFrom x6, From x6, FromStr, PLAIN, JSON client/server from str/slice/reader, map keys, Smile, Any in each integer variant) and judged by |v| <= 2^53-1",
+    explanation="every integer within a radius of every boundary centre (0, ±(2^53-1), ±2^k, ±10^k, top of u128) is pushed through ~50 routes (new, TryFrom x6, From x6, FromStr, PLAIN, JSON client/server from str/slice/reader, map keys, Smile, Any in each integer variant, keys behind hand-written newtype / Option key types) and judged by |v| <= 2^53-1; part 1: the same boundary integers as JSON request and response bodies in every chunking within the deviation bound (a prefix of a number is a number), blocking and async",
     level_text="Exhaustive exploration of every boundary neighbourhood (the code is two comparisons plus width conversions, monotone between the centres) through every route on the real code.",
     level_note="Trusted: serde_json/serde_smile to render probe documents; Rust integer formatting. Values further than the radius from every centre are assumed to behave like their neighbours.")
 
